@@ -160,6 +160,16 @@ fn vrun(profile: &str, seed: u64, start: u64, count: u64, out: &str, verbose: bo
                 );
             }
         }
+        // the same feature delivered several times by the parser (twins are told apart by their
+        // `Source` allocation only)
+        if idx % 25 == 7 && matches!(profile, "general" | "c03" | "c04") {
+            let (tw, problems) = exec::run_twins(seed, idx);
+            tally.count("twin_feature_runs", 1);
+            tally.count("events", tw.evs.len() as u64);
+            for (prop, sig, detail) in problems {
+                tally.violation(prop, sig, detail, idx, json!({"stream": vh::evrec::render(&tw.evs)}));
+            }
+        }
         tally.sample("run", 3, || {
             json!({"case_index": idx, "case": case.describe(), "stream": vh::evrec::render(&run.evs), "schedule": run.qpoints.iter().map(|q| q.decision.clone()).collect::<Vec<_>>()})
         });
